@@ -32,7 +32,7 @@ ANCHORS = [
     "raggedshape.py::RaggedView2._calculate_lengths",
     "raggedshape.py::build_indices",
 ]
-RECVS = ["fresh", "lazyrows", "lazycols+2", "lazycols-1", "lazychain", "ufunc", "astype", "deepcopy", "pickle", "copy-of-lazy", "readonly", "saveload", "concat"]
+RECVS = ["fresh", "lazyrows", "lazycols+2", "lazycols-1", "lazychain", "ufunc", "astype", "deepcopy", "pickle", "copy-of-lazy", "readonly", "saveload", "concat", "fromnumpy", "tonumpy-called", "subclass", "was-argument", "byteswapped"]
 FLOOR_TAGS = ["recv:" + r_ for r_ in RECVS] + ["mask-as-list", "r:int", "r:slice+1", "r:slice+k", "r:slice-", "r:list", "r:array", "r:mask", "r:ell",
               "c:none", "c:int+", "c:int-", "c:slice+1", "c:slice+k", "c:slice-",
               "must-refuse", "sel-has-empty-row", "ellipsis-padded", "e-first", "e-last", "e-mid", "e-consec", "allempty", "norows"]
@@ -72,6 +72,32 @@ def build_receiver(recv, flat, lens):
         import copy
         lazy, parent = build_receiver("lazycols+2", flat, lens)
         return copy.deepcopy(lazy), None
+    if recv in ("fromnumpy", "tonumpy-called"):
+        # rectangular contents only (all rows equally long, at least one row): built from a 2-D numpy array / converted to one before use
+        if len(lens) and len(set(lens)) == 1:
+            if recv == "fromnumpy":
+                return RA.from_numpy_array(flat.copy().reshape(len(lens), lens[0])), None
+            x = RA(flat.copy(), list(lens))
+            x.to_numpy_array()
+            return x, None
+        return RA(flat.copy(), list(lens)), None
+    if recv == "subclass":          # an instance of a user subclass
+        return _subclass()(flat.copy(), list(lens)), None
+    if recv == "was-argument":      # the array has been handed to other parts of the library before (kept by a HashTable as its values, used as an operand / mask / part)
+        x = RA(flat.copy(), list(lens))
+        n = len(lens)
+        if n:
+            keys = RA(np.array([i + n * j for i, l in enumerate(lens) for j in range(l)], dtype=np.int64), list(lens))
+            x._rtmon_keepalive = CTX.lib.HashTable(keys, x, mod=n)
+        np.concatenate([x, x])
+        CTX.lib.ragged_slice(x, np.zeros(n, dtype=np.int64), np.array(lens, dtype=np.int64))
+        np.maximum(x, x)        # (an operand of a binary ufunc; add / multiply could overflow on extreme values, which is not the point here)
+        x == x
+        return x, None
+    if recv == "byteswapped":       # the flat buffer has non-native byte order
+        if flat.dtype.itemsize > 1:
+            return RA(flat.astype(flat.dtype.newbyteorder()), list(lens)), None
+        return RA(flat.copy(), list(lens)), None
     if recv == "saveload":          # written to disk and read back
         import tempfile, os
         with tempfile.TemporaryDirectory(prefix="rtmon-recv-") as d:
@@ -115,6 +141,20 @@ def build_receiver(recv, flat, lens):
         parent = RA(np.concatenate(prow), [len(r) for r in prow])
         return parent[1::2][::-1, 1::2][:, ::-1], parent   # view of view of view, column step -2
     raise ValueError(recv)
+
+
+_SUB = []
+
+
+def _subclass():
+    if not _SUB:
+        class UserRaggedArray(CTX.lib.RaggedArray):
+            """what a user subclass looks like: an extra method, nothing overridden"""
+
+            def total(self):
+                return self.ravel().sum()
+        _SUB.append(UserRaggedArray)
+    return _SUB[0]
 
 
 def decode(v):
